@@ -79,11 +79,16 @@ Definition tw0 : tw := mktw [] [] false false 0.
 (* :180 checkWriteHeaderCode: panic unless 100 <= code <= 599 *)
 Definition valid_code (c : Z) : bool := (100 <=? c) && (c <=? 599).
 
-(* :156 writeHeaderLocked *)
+(* an informational status: 1xx except 101 Switching Protocols -- never the final status of a response *)
+Definition is_info (c : Z) : bool := (100 <=? c) && (c <=? 199) && negb (c =? 101).
+
+(* :156 writeHeaderLocked (since 184fd61 an informational code is dropped: the buffering writer cannot forward it
+   early, and it must not become the final status) *)
 Definition write_header_locked (t : tw) (c : Z) : result tw :=
   if negb (valid_code c) then Panic
   else if tw_timedOut t then Ok t
   else if tw_wroteHeader t then Ok t   (* superfluous WriteHeader: logged, ignored *)
+  else if is_info c then Ok t
   else Ok (mktw (tw_h t) (tw_wbuf t) (tw_timedOut t) true c).
 
 (* :174 WriteHeader (mu held) *)
@@ -237,16 +242,19 @@ Definition gated_script (n clen : Z) (acts : list action) : list action :=
    insists on three digits, and it looks at the code only after the superfluous-call test, so once something
    is committed any code is just ignored) *)
 Definition valid_code_nethttp (c : Z) : bool := (100 <=? c) && (c <=? 999).
+(* net/http response.WriteHeader: an informational 1xx code (except 101) is sent at once and does NOT commit the
+   response -- a final status may follow; the first other WriteHeader, or the first Write, commits *)
+Definition commits (e : revent) : bool := match e with RWrite _ => true | RWriteHeader c _ => negb (is_info c) end.
+Definition rw_committed (w : rwriter) : bool := existsb commits (rw_log w).
+
 Definition direct_action (w : rwriter) (a : action) : rwriter * outcome :=
   match a with
   | SetHeader k v => (mkrw (hset k v (rw_h w)) (rw_log w), OOk)
   | AddHeader k v => (mkrw (hadd k v (rw_h w)) (rw_log w), OOk)
   | DelHeader k => (mkrw (hdel k (rw_h w)) (rw_log w), OOk)
   | WriteHeader c =>
-      match rw_log w with
-      | _ :: _ => (rw_write_header c w, OOk)            (* superfluous: reaches the writer, ignored by it *)
-      | [] => if valid_code_nethttp c then (rw_write_header c w, OOk) else (w, OPanic)
-      end
+      if rw_committed w then (rw_write_header c w, OOk)   (* superfluous: reaches the writer, ignored by it *)
+      else if valid_code_nethttp c then (rw_write_header c w, OOk) else (w, OPanic)
   | Write bs => (rw_write bs w, OWrote (List.length bs))
   | PanicA _ => (w, OPanic)
   end.
@@ -448,4 +456,37 @@ Definition rpc_server_direct (h : hres) : rres :=
   match h with
   | HPanics v => if breaker_sees v then rpc_direct true h else RResult None codeOK
   | _ => rpc_direct true h
+  end.
+
+(* ------------------------------------------------------------------ application-wide error handlers (api/httpx/responses.go) *)
+(* httpx.SetErrorHandler(f) serves httpx.Error only, httpx.SetErrorHandlerCtx(g) serves httpx.ErrorCtx only (:42-68);
+   doHandleError (:141-172): no handler => the caller's fns if any, else http.Error(400); handler => its (code, body):
+   nil body => WriteHeader(code) alone, error body => http.Error(text, code), otherwise WriteJson(code, body). *)
+Inductive gbody := GBNil | GBErr | GBJson.
+Inductive gconf := GNone | GPlain (code : Z) (b : gbody) | GCtx (code : Z) (b : gbody).
+Definition biz_err : list nat := [98; 105; 122; 10]%nat.                                   (* "biz\n" *)
+Definition biz_json : list nat := [123; 34; 109; 34; 58; 34; 98; 105; 122; 34; 125]%nat.  (* {"m":"biz"} *)
+Definition err_default : list nat := [118; 101; 114; 105; 102; 45; 101; 114; 114; 10]%nat. (* "verif-err\n" *)
+Definition handled_calls (code : Z) (b : gbody) : list action :=
+  match b with
+  | GBNil => [WriteHeader code]
+  | GBErr => [WriteHeader code; Write biz_err]
+  | GBJson => [WriteHeader code; Write biz_json]
+  end.
+(* what httpx.Error(w, err) (ctx = false) / httpx.ErrorCtx(ctx, w, err) (ctx = true) does to its writer *)
+Definition error_calls (g : gconf) (ctx : bool) : list action :=
+  match g, ctx with
+  | GPlain c b, false => handled_calls c b
+  | GCtx c b, true => handled_calls c b
+  | _, _ => [WriteHeader 400; Write err_default]
+  end.
+(* timeouthandler.go:103-110: the ctx.Done arm answers through httpx.ErrorCtx(r.Context(), w, ctx.Err(), fn): only a
+   ctx error handler takes precedence over fn (499/503 + reason); a handler installed by SetErrorHandler is not
+   consulted *)
+Definition timeout_arm_events (g : gconf) (c : cause) (rh0 : hdrs) : list revent :=
+  match g with
+  | GCtx code b =>
+      map (fun a => match a with WriteHeader k => RWriteHeader k rh0 | Write bs => RWrite bs | _ => RWrite [] end)
+          (handled_calls code b)
+  | _ => [RWriteHeader (timeout_status c) rh0; RWrite reason]
   end.
